@@ -12,7 +12,7 @@
 //        one complete request whose handler answers from a thread of its own after the delay
 //     -> Y codes=<status codes received in order> closed=<1 if the server closed the connection before/without the answer>
 //   Z <max request size> <segment hex>,<segment hex>,...
-//        a live endpoint with that maximum request size (time-outs 1500 ms); the client sends the segments 40 ms apart (separate
+//        a live endpoint with that maximum request size (time-outs 1500 ms); the client sends the segments 120 ms apart (separate
 //        reads), then reads for 400 ms
 //     -> Z codes=<status codes received in order, '-' if none> handler=<times the handler ran> seen=<resource:body length of each call>
 #include <pistache/endpoint.h>
@@ -132,7 +132,7 @@ static std::string size_case(const std::vector<std::string>& t)
         if (!cur.empty() && !closed)
         {
             pv::send_all(fd, pv::unhex(cur));
-            drain(40);
+            drain(120);
         }
         cur.clear();
     }
